@@ -3,10 +3,10 @@ From OIDC Require Import Lib C04_OP.
 
 (* response t2 was obtained by presenting the refresh token that the earlier response t1 carried *)
 Definition refresh_link (h : list event) (t1 t2 : tokresp) : Prop :=
-  exists h1 e1 e2 h2 cr n sc,
+  exists h1 e1 e2 h2 pl cr n sc,
     h = h1 ++ e2 :: h2 /\ In e1 h1
     /\ e_out e1 = OTokens t1 /\ t_rt t1 = Some n
-    /\ e_op e2 = TokenRefresh cr (Some n) sc /\ e_out e2 = OTokens t2.
+    /\ e_op e2 = TokenRefresh pl cr (Some n) sc /\ e_out e2 = OTokens t2.
 
 (* rt0 -> rt1 -> ... : zero or more links *)
 Inductive refresh_chain (h : list event) : tokresp -> tokresp -> Prop :=
